@@ -82,6 +82,9 @@ PANIC_REVIEWED = {
 }
 
 
+PANIC_REVIEWED = {(short_fn(k[0]), k[1]): v for k, v in PANIC_REVIEWED.items()}
+
+
 def family(f, b):
     """b and its closures (transitively)"""
     out = [b]
@@ -298,7 +301,7 @@ def run(ctx):
             nsites += 1
             why = auto_accept(b, kind, bb)
             if why is None:
-                key = (fl, kind)
+                key = (short_fn(fl), kind)
                 if key in PANIC_REVIEWED and used.get(key, 0) < PANIC_REVIEWED[key][0]:
                     used[key] = used.get(key, 0) + 1
                     why = 'reviewed: ' + PANIC_REVIEWED[key][1]
